@@ -21,7 +21,12 @@ from ahrs.utils.wmm import WMM
 DATE_SETS = [{"d2017": 2017.3, "d2022": datetime.date(2022, 10, 19), "d2027": 2027.1},
              # decimal dates that are not day-aligned and sit next to a rounding boundary of the 0.1-year secular-variation step
              {"d2017": 2018.35, "d2022": 2021.65, "d2027": 2026.55},
-             {"d2017": 2016.05, "d2022": 2023.45, "d2027": datetime.date(2029, 12, 31)}]
+             {"d2017": 2016.05, "d2022": 2023.45, "d2027": datetime.date(2029, 12, 31)},
+             # the second half of leap years, decimal dates just above a 0.05-year boundary (a day lost in a day <-> decimal-year conversion
+             # crosses it), and an integer year
+             {"d2017": 2016.7541, "d2022": 2024.7541, "d2027": 2028},
+             # the first instants of the later coefficient files, reached from the last tenth of the first one
+             {"d2017": 2019.9, "d2022": 2020.0, "d2027": 2025.0}]
 DATES = dict(DATE_SETS[0])
 PLACES = {"munich": (48.1372, 11.5755, 0.519), "lat0": (0.0, 11.5, 0.0), "lon0": (48.0, 0.0, 0.5), "northpole": (90.0, 0.0, 0.0),
           "southpole": (-90.0, 45.0, 1.0), "lon180": (-30.0, 180.0, 10.0)}
@@ -163,7 +168,7 @@ def static_checks():
 
 def run(chk):
     quick = chk.tier == "quick"
-    chk.rule = ("histories of Construct / Query / Read over 3 dates (one per coefficient file; 3 concrete triples incl. a shared calendar-date object and decimal dates next to 0.05-year rounding boundaries) u None, 6 places (lat 0, lon 0, both poles, "
+    chk.rule = ("histories of Construct / Query / Read over 3 dates (one per coefficient file; 5 concrete triples incl. a shared calendar-date object and decimal dates next to 0.05-year rounding boundaries) u None, 6 places (lat 0, lon 0, both poles, "
                 "lon 180, Munich) and 2 frames: exhaustive in TLC for <= 4 operations, -simulate histories of <= 10 operations replayed on real "
                 "objects; distinct = distinct history; histories of one call are the trivial ones (counted separately in notes)")
     chk.assume("bit-equality of the eight elements between any two histories that ask for the same (date, place, frame) and a fresh object")
@@ -176,7 +181,7 @@ def run(chk):
                       seed=chk.seed % 100000, workers=1, want_behaviours=True, timeout=900)
     chk.add_tlc("WmmSession[-simulate %d x depth 10]" % nb, res)
     traces = []
-    for si, ds in enumerate(DATE_SETS if not quick else DATE_SETS[:2]):
+    for si, ds in enumerate(DATE_SETS if not quick else [DATE_SETS[0], DATE_SETS[1 + chk.seed % 2], DATE_SETS[3], DATE_SETS[4]]):
         DATES.clear()
         DATES.update(ds)
         _ref.clear()
